@@ -204,6 +204,147 @@ def gen_index(repo):
     return INDEX_HEADER % (', '.join(rels), sha) + text, {'sources': rels, 'sha256': sha, 'functions': info}
 
 
+JOIN_HEADER = '''(* GENERATED from %s by harness/translate -- do not edit.  sha256(sources)=%s
+   The per-chunk join loops.  `set_sim_join_rows` is the body of join/set_sim_join.py:set_sim_join
+   returning the pair (output_rows, output_header) instead of pd.DataFrame(output_rows,
+   columns=output_header); likewise overlap_coefficient_join_split_rows
+   (join/overlap_coefficient_join_py.py:_overlap_coefficient_join_split) and
+   edit_distance_join_split_rows (join/edit_distance_join_py.py:_edit_distance_join_split), and the
+   four filters' _filter_tables_split (position / prefix / size / overlap _filter_tables_split_rows).
+   Rewrites (all syntactic and checked, see harness/translate/joins.py):
+%s *)
+From Coq Require Import ZArith List String.
+From SSJ Require Import F64 PyNum FilterUtilsGen HelperGen TokenOrderingGen ValidationGen IndexGen.
+Import ListNotations.
+Open Scope string_scope.
+Open Scope Z_scope.
+
+(* COMP_OP_MAP[op]: the generated comp_op_map; KeyError for an unknown key, TypeError for an
+   unhashable one *)
+Definition comp_op_lookup (op : pyval) : (pyval -> pyval -> pyval) + pyval :=
+  match op with
+  | PExc _ => inr op
+  | PStr s => match comp_op_map s with Some f => inl f | None => inr (PExc "KeyError") end
+  | PList _ | PDict _ => inr (PExc "TypeError")
+  | _ => inr (PExc "KeyError")
+  end.
+
+'''
+
+JOIN_OBJECTS = {'PositionIndex': 'py_stringsimjoin/index/position_index.py',
+                'PositionFilter': 'py_stringsimjoin/filter/position_filter.py',
+                'PrefixIndex': 'py_stringsimjoin/index/prefix_index.py',
+                'PrefixFilter': 'py_stringsimjoin/filter/prefix_filter.py',
+                'InvertedIndex': 'py_stringsimjoin/index/inverted_index.py',
+                'OverlapFilter': 'py_stringsimjoin/filter/overlap_filter.py',
+                'SizeIndex': 'py_stringsimjoin/index/size_index.py',
+                'SizeFilter': 'py_stringsimjoin/filter/size_filter.py'}
+JOIN_OBJ_PARAMS = {'position_filter': 'PositionFilter', 'prefix_filter': 'PrefixFilter',
+                   'size_filter': 'SizeFilter', 'overlap_filter': 'OverlapFilter'}
+JOIN_METHODS = {
+    ('PositionIndex', 'build'): {'name': 'position_index_build'},
+    ('PositionFilter', 'find_candidates'): {
+        'name': 'position_filter_find_candidates',
+        'objparams': {'position_index': 'PositionIndex'},
+        'objattrs': {'position_index': ['index', 'size_cache', 'min_length', 'max_length']}},
+    ('PrefixIndex', 'build'): {'name': 'prefix_index_build'},
+    ('PrefixFilter', 'find_candidates'): {
+        'name': 'prefix_filter_find_candidates',
+        'objparams': {'prefix_index': 'PrefixIndex'}, 'objattrs': {'prefix_index': ['index']}},
+    ('InvertedIndex', 'build'): {'name': 'inverted_index_build'},
+    ('OverlapFilter', 'find_candidates'): {
+        'name': 'overlap_filter_find_candidates',
+        'objparams': {'inverted_index': 'InvertedIndex'},
+        'objattrs': {'inverted_index': ['index', 'size_cache']}},
+    ('SizeIndex', 'build'): {'name': 'size_index_build'},
+    ('SizeFilter', 'find_candidates'): {
+        'name': 'size_filter_find_candidates',
+        'objparams': {'size_index': 'SizeIndex'},
+        'objattrs': {'size_index': ['index', 'min_length', 'max_length']}},
+}
+JOIN_TARGETS = [('set_sim_join_rows', 'py_stringsimjoin/join/set_sim_join.py', 'set_sim_join'),
+                ('overlap_coefficient_join_split_rows', 'py_stringsimjoin/join/overlap_coefficient_join_py.py',
+                 '_overlap_coefficient_join_split'),
+                ('edit_distance_join_split_rows', 'py_stringsimjoin/join/edit_distance_join_py.py',
+                 '_edit_distance_join_split'),
+                ('position_filter_tables_split_rows', 'py_stringsimjoin/filter/position_filter.py',
+                 '_filter_tables_split'),
+                ('prefix_filter_tables_split_rows', 'py_stringsimjoin/filter/prefix_filter.py',
+                 '_filter_tables_split'),
+                ('size_filter_tables_split_rows', 'py_stringsimjoin/filter/size_filter.py',
+                 '_filter_tables_split'),
+                ('overlap_filter_tables_split_rows', 'py_stringsimjoin/filter/overlap_filter.py',
+                 '_filter_tables_split')]
+JOIN_HELPERS = [('py_stringsimjoin/utils/generic_helper.py',
+                 ['get_output_row_from_tables', 'get_output_header_from_tables',
+                  'find_output_attribute_indices']),
+                ('py_stringsimjoin/utils/token_ordering.py',
+                 ['gen_token_ordering_for_tables', 'order_using_token_ordering']),
+                ('py_stringsimjoin/utils/validation.py',
+                 ['validate_threshold', 'validate_sim_measure_type', 'validate_comp_op_for_sim_measure'])]
+
+
+def gen_join(repo):
+    """JoinGen.v: (text, info)."""
+    import ast
+    import methods
+    import joins
+    srcs = {}
+
+    def read(rel):
+        if rel not in srcs:
+            srcs[rel] = open(os.path.join(repo, rel)).read()
+        return srcs[rel]
+    # how the callees abstracted their parameters (their text lives in the imported Gen files)
+    specs = {}
+    fresh = set()
+    for rel, funs in INDEX_CALLEES + JOIN_HELPERS:
+        tree = preprocess(rel, read(rel))
+        py2coq.translate_functions(ast.unparse(tree), funs, specs=specs)
+        for n in tree.body:
+            if isinstance(n, ast.FunctionDef) and n.name in funs and py2coq.returns_fresh(n):
+                fresh.add(n.name)
+    callee_specs = {k: v for k, v in specs.items()
+                    if k in sum((f for _, f in INDEX_CALLEES), [])}
+    fundefs, attr_allow, extracted = [], {}, {}
+    wanted = set(c['name'] for c in JOIN_METHODS.values())
+    for new, rel, cls, meth, state, objects in INDEX_METHODS:
+        if new not in wanted:
+            continue
+        objs = {o: (ast.parse(read(orel)), ocls, attrs, ms) for o, (orel, ocls, attrs, ms) in objects.items()}
+        fn, inf = methods.extract_method(ast.parse(read(rel)), cls, meth, new, state, objs)
+        fundefs.append(fn)
+        attr_allow[new] = {o: attrs for o, (_, _, attrs, _) in objects.items()}
+        extracted[new] = ([a.arg for a in fn.args.args], inf)
+    py2coq.translate_fundefs(fundefs, known_sigs=callee_specs, attr_allow=attr_allow, allow_sets=True,
+                             specs=specs)
+    out, info, notes_txt = [], {}, []
+    for new, rel, fname in JOIN_TARGETS:
+        read(rel)
+        prep = joins.JoinPreparer(repo, rel, fname, JOIN_OBJECTS, JOIN_METHODS,
+                                  'py_stringsimjoin/utils/validation.py')
+        fn = prep.prepare(extracted, JOIN_OBJ_PARAMS)
+        for r, sx in prep.srcs.items():
+            srcs.setdefault(r, sx)
+        fn.name = new
+        obj_locals = {}
+        for var, o in prep.objs.items():
+            obj_locals[var] = [a for a, e in o.attr.items()
+                               if isinstance(e, ast.Name) and e.id == '%s_%s' % (var, a)]
+        text, sigs = py2coq.translate_fundefs(
+            [fn], known_sigs=specs, fun_params=prep.fun_params,
+            fun_tables={'COMP_OP_MAP': 'comp_op_lookup'}, obj_locals=obj_locals,
+            fresh_funs=fresh, strict_escape=True)
+        out.append(text)
+        info[new] = {'source': rel, 'function': fname, 'signature': sigs[new], 'rewrites': prep.notes,
+                     'python': ast.unparse(fn)}
+        notes_txt += ['     %s: %s' % (new, n) for n in prep.notes]
+    rels = sorted(srcs)
+    sha = hashlib.sha256('\0'.join(srcs[r] for r in rels).encode()).hexdigest()
+    hdr = JOIN_HEADER % (', '.join(rels), sha, '\n'.join(notes_txt).replace('*)', '* )'))
+    return hdr + '\n'.join(out), {'sources': rels, 'sha256': sha, 'functions': info}
+
+
 def comp_op_map(repo):
     """COMP_OP_MAP as a Gallina function from operator string to a py_* comparison."""
     import ast
@@ -262,6 +403,22 @@ def main():
         status['IndexGen.v'] = {'error': '%s: %s' % (type(e).__name__, e)}
         write_if_changed(os.path.join(args.out, 'IndexGen.v'),
                          '(* translation failed: %s *)\nTranslation_failed.\n' % str(e).replace('*)', '* )'))
+    try:
+        text, info = gen_join(args.repo)
+        changed = write_if_changed(os.path.join(args.out, 'JoinGen.v'), text)
+        status['JoinGen.v'] = dict(info, changed=changed)
+    except (py2coq.Unsupported, SyntaxError, OSError) as e:
+        ok = False
+        status['JoinGen.v'] = {'error': '%s: %s' % (type(e).__name__, e)}
+        write_if_changed(os.path.join(args.out, 'JoinGen.v'),
+                         '(* translation failed: %s *)\nTranslation_failed.\n' % str(e).replace('*)', '* )'))
+    if args.only == 'JoinGen.v':
+        st = {'JoinGen.v': status['JoinGen.v']}
+        with open(os.path.join(args.out, 'gen_status_join.json'), 'w') as f:
+            json.dump(st, f, indent=1, sort_keys=True)
+        print(json.dumps({k: ('error: ' + v['error']) if 'error' in v else
+                          ('changed' if v.get('changed') else 'unchanged') for k, v in st.items()}))
+        sys.exit(0 if 'error' not in st['JoinGen.v'] else 3)
     if args.only == 'IndexGen.v':
         with open(os.path.join(args.out, 'gen_status_index.json'), 'w') as f:
             json.dump(status, f, indent=1, sort_keys=True)
